@@ -345,7 +345,7 @@ def render_files(spec, log):
     return out
 
 
-def materialise(spec, root, log, prev=None):
+def materialise(spec, root, log, prev=None, inplace=False):
     """Writes the repository under root. With prev (the previous render) only differences are
     written/removed, so unchanged files keep their inode, mtime and xattrs."""
     files = render_files(spec, log)
@@ -365,6 +365,12 @@ def materialise(spec, root, log, prev=None):
             continue
         path = os.path.join(root, rel)
         os.makedirs(os.path.dirname(path), exist_ok=True)
+        if inplace and os.path.isfile(path) and not os.path.islink(path):
+            # an editor that rewrites the file in place: same inode (hard links and xattrs survive)
+            with open(path, "r+b") as f:
+                f.truncate(0)
+                f.write(files[rel])
+            continue
         tmp = path + ".verif-tmp"
         with open(tmp, "wb") as f:
             f.write(files[rel])
